@@ -5,7 +5,7 @@
   "C07"
  ],
  "level": "U",
- "tier": "wip",
+ "tier": "quick",
  "harness": "h_allocate_group_table_placement",
  "replace": [
   "flexbg_offset"
@@ -33,7 +33,7 @@
   "C07"
  ],
  "level": "U",
- "tier": "wip",
+ "tier": "quick",
  "harness": "h_allocate_group_table_placement_flex",
  "replace": [
   "flexbg_offset"
@@ -60,7 +60,7 @@
   "C07"
  ],
  "level": "U",
- "tier": "wip",
+ "tier": "quick",
  "harness": "h_allocate_group_table_stride",
  "replace": [
   "flexbg_offset"
